@@ -355,6 +355,34 @@ def gen_template(repo):
     return '\n'.join(L) + '\n'
 
 
+def gen_kiki_ann(repo):
+    """Untrusted hints for the validator run on the tables of parser.rs: the item annotation of every
+    state and a FIRST table (brute force, lib/lrhint.py).  Checked inside Coq."""
+    import lrhint
+    rs = read_parser_rs(os.path.join(repo, 'kiki/src/parser.rs'))
+    start, terminals, nts = read_kiki_grammar(os.path.join(repo, 'kiki/src/parser.kiki'))
+    nt_names = [n for n, _ in nts]
+    rules = []
+    for n, variants in nts:
+        for v, fields in variants:
+            rules.append((n, [('T', s[1:]) if s.startswith('$') else ('N', s) for s, _ in fields]))
+
+    def act(a):
+        k = a.split(' ')
+        return {'AShift': ('S', int(k[1]) if len(k) > 1 else 0), 'AReduce': ('R', int(k[1]) if len(k) > 1 else 0),
+                'AAccept': ('Acc',), 'AErr': ('E',)}[k[0]]
+    actions = [[act(a) for a in row] for row in rs['actions']]
+    gotos = [[None if g == 'None' else int(g.split(' ')[1]) for g in row] for row in rs['gotos']]
+    states, ref = lrhint.annotate_table(rules, start, terminals, nt_names, rs['start'], actions, gotos)
+    tidx = {t: i for i, t in enumerate(terminals)}
+    L = ['(* GENERATED on every run by lib/translate.py: untrusted hints for LR/Validate.v. *)',
+         'From Coq Require Import List.', 'From Kiki Require Import Data LR.Driver LR.Grammar LR.Validate.',
+         'Import ListNotations. Open Scope nat_scope.', '',
+         'Definition kiki_ann : list (list item) :=\n  %s.' % lrhint.gallina_ann(states, tidx),
+         'Definition kiki_ft : first_table := %s.' % lrhint.gallina_ft(ref, tidx)]
+    return '\n'.join(L) + '\n'
+
+
 def write_if_changed(path, text):
     os.makedirs(os.path.dirname(path), exist_ok=True)
     try:
@@ -370,7 +398,7 @@ def write_if_changed(path, text):
 def regenerate(repo, coq_dir):
     """Rewrite Gen/*.v from the source.  Returns the list of files that changed."""
     changed = []
-    for name, fn in (('KikiTables.v', gen_kiki_tables), ('Template.v', gen_template)):
+    for name, fn in (('KikiTables.v', gen_kiki_tables), ('Template.v', gen_template), ('KikiAnn.v', gen_kiki_ann)):
         p = os.path.join(coq_dir, 'Gen', name)
         if write_if_changed(p, fn(repo)):
             changed.append(p)
